@@ -313,6 +313,98 @@ fn datagrams_from_transmit(transmit: &Transmit<'_>) -> Datagrams {
     }
 }
 
+/// Verification hook (C17): a [`RelayTransport`] without relay actor whose receive queue is
+/// fed by the caller.  Only compiled with `--cfg iroh_verif`.
+#[cfg(iroh_verif)]
+pub(crate) mod verif_hooks {
+    use super::*;
+
+    /// [`RelayTransport`] plus the sending half of its receive queue.
+    #[derive(Debug)]
+    pub struct FedRelayTransport {
+        transport: RelayTransport,
+        feed: Option<mpsc::Sender<RelayRecvDatagram>>,
+    }
+
+    /// The receiving half of a [`RelaySender`] created by [`recording_sender`].
+    #[derive(Debug)]
+    pub struct RelaySentLog(mpsc::Receiver<RelaySendItem>);
+
+    impl RelaySentLog {
+        /// Everything handed to the relay sender so far: `(url, destination, contents length)`.
+        pub fn drain(&mut self) -> Vec<(RelayUrl, EndpointId, usize)> {
+            let mut out = Vec::new();
+            while let Ok(item) = self.0.try_recv() {
+                out.push((item.url, item.remote_endpoint, item.datagrams.contents.len()));
+            }
+            out
+        }
+    }
+
+    /// A [`RelaySender`] whose channel ends in a [`RelaySentLog`] instead of the relay actor.
+    pub(crate) fn recording_sender(capacity: usize) -> (RelaySender, RelaySentLog) {
+        let (tx, rx) = mpsc::channel(capacity);
+        (
+            RelaySender {
+                sender: PollSender::new(tx),
+            },
+            RelaySentLog(rx),
+        )
+    }
+
+    impl FedRelayTransport {
+        /// Creates the transport; must be called within a tokio runtime context.
+        pub fn new(capacity: usize, me: EndpointId) -> Self {
+            let (relay_datagram_send_channel, _) = mpsc::channel(1);
+            let (feed, relay_datagram_recv_queue) = mpsc::channel(capacity);
+            let (actor_sender, _) = mpsc::channel(1);
+            let transport = RelayTransport {
+                relay_datagram_recv_queue,
+                relay_datagram_send_channel,
+                pending_item: None,
+                actor_sender,
+                _actor_handle: AbortOnDropHandle::new(task::spawn(async {})),
+                my_relay: HomeRelayWatch::default(),
+                my_endpoint_id: me,
+            };
+            Self {
+                transport,
+                feed: Some(feed),
+            }
+        }
+
+        /// Enqueues a batch as the `ActiveRelayActor` would; `false` if the queue is full or closed.
+        pub fn feed(&self, url: RelayUrl, src: EndpointId, datagrams: Datagrams) -> bool {
+            match &self.feed {
+                Some(tx) => tx.try_send(RelayRecvDatagram { url, src, datagrams }).is_ok(),
+                None => false,
+            }
+        }
+
+        /// Drops the sending half of the receive queue.
+        pub fn close(&mut self) {
+            self.feed = None;
+        }
+
+        /// Calls [`RelayTransport::poll_recv`]; returns `(len, stride, source)` of every filled slot.
+        pub fn poll_recv(
+            &mut self,
+            cx: &mut Context,
+            bufs: &mut [io::IoSliceMut<'_>],
+        ) -> Poll<io::Result<Vec<(usize, usize, String)>>> {
+            let mut metas = vec![noq_udp::RecvMeta::default(); bufs.len()];
+            let mut infos = vec![RecvInfo::default(); bufs.len()];
+            self.transport
+                .poll_recv(cx, bufs, &mut metas, &mut infos)
+                .map_ok(|n| {
+                    (0..n)
+                        .map(|i| (metas[i].len, metas[i].stride, format!("{:?}", infos[i].remote())))
+                        .collect()
+                })
+        }
+    }
+}
+
 #[cfg(test)]
 mod tests {
     use std::{collections::BTreeSet, time::Duration};
